@@ -177,7 +177,7 @@ class PoolWorld:
         ms = self.model if isinstance(self.model, list) else [self.model]
         for m in ms:
             if sample_weight is not None:
-                m.fit(self.X, y, sample_weight)
+                m.fit(self.X, y, sample_weight=sample_weight)
             else:
                 m.fit(self.X, y)
 
